@@ -23,6 +23,7 @@ package impl
 //	strings in hex ("-" = empty); expiry = "-" (nil) or year*100+month in decimal
 
 import (
+	"encoding/json"
 	"bytes"
 	"fmt"
 	"strconv"
@@ -382,6 +383,21 @@ func runY(t []string) string {
 			return "err"
 		}
 		return "ok " + Hex(out)
+	case t[2] == "packobs" && len(t) == 4:
+		// the read-only operations (Pack, String, Bytes, JSON encoding) leave the components alone
+		vt, ok := ParseTree(t[3])
+		if !ok || !SetTrack(f, kind, vt) {
+			return "bad-op"
+		}
+		out, err := f.Pack()
+		_, _ = f.String()
+		_, _ = f.Bytes()
+		_, _ = json.Marshal(f)
+		res := "err"
+		if err == nil {
+			res = "ok " + Hex(out)
+		}
+		return res + " " + TrackTree(f).String()
 	case t[2] == "unpack" && len(t) == 4:
 		data, ok := UnHex(t[3])
 		if !ok {
